@@ -43,4 +43,113 @@ MUTANTS = [
      "    def depends_on_result_in_sandbox(self) -> bool:\n        return True\n\n"
      "    def _exit_identifier_printer(self) -> ProcOutputFile:\n        return ProcOutputFile.STDOUT",
      '_ResultReporterForPreserveAndPrintSandboxDir.report : ensures['),
+    ('c06-conjunction-stops-at-first-true', 'C06', 'exactly_lib/impls/types/matcher/impls/combinator_matchers.py',
+     "            if not result.value:\n                return tb.build_result(False)",
+     "            if result.value:\n                return tb.build_result(False)",
+     'Conjunction.matches_w_trace : ensures[value-is-all-of-the-operands]'),
+    ('c06-operand-applied-twice', 'C06', 'exactly_lib/impls/types/matcher/impls/combinator_matchers.py',
+     "            result = operand.matches_w_trace(model)\n            tb.append_child(result.trace)\n"
+     "            if not result.value:",
+     "            operand.matches_w_trace(model)\n            result = operand.matches_w_trace(model)\n"
+     "            tb.append_child(result.trace)\n            if not result.value:",
+     'Conjunction.matches_w_trace : operands are applied in the order given, none twice, none skipped'),
+    ('c06-and-builds-disjunction', 'C06', 'exactly_lib/impls/types/matcher/standard_expression_grammar.py',
+     "        return combinator_sdvs.Conjunction(operands, model_freezer)",
+     "        return combinator_sdvs.Disjunction(operands, model_freezer)",
+     'integer-matcher: && builds a Conjunction of the operands in the order given'),
+    ('c06-grammar-init-reverses-levels', 'C06', 'exactly_lib/impls/types/expression/grammar.py',
+     "            for infix_ops_of_precedence in infix_operators_in_order_of_increasing_precedence\n        ]",
+     "            for infix_ops_of_precedence in reversed(infix_operators_in_order_of_increasing_precedence)\n        ]",
+     'Grammar.__init__ : ensures[one dict per precedence level, in the order given]'),
+    ('c06-sdv-resolve-drops-operand', 'C06', 'exactly_lib/impls/types/matcher/impls/combinator_sdvs.py',
+     "class Conjunction(InfixOpImplBase[MODEL]):\n    def resolve(self, symbols: SymbolTable) -> MatcherDdv[MODEL]:\n"
+     "        return combinator_matchers.ConjunctionDdv(\n            [operand.resolve(symbols)\n"
+     "             for operand in self._operands],",
+     "class Conjunction(InfixOpImplBase[MODEL]):\n    def resolve(self, symbols: SymbolTable) -> MatcherDdv[MODEL]:\n"
+     "        return combinator_matchers.ConjunctionDdv(\n            [operand.resolve(symbols)\n"
+     "             for operand in self._operands[1:]],",
+     'combinator_sdvs:Conjunction.resolve : ensures[operands: same length, same order, each the image of its source]'),
+    ('c06-reserved-word-accepted', 'C06', 'exactly_lib/impls/types/expression/parser.py',
+     "        elif primitive_name in self.grammar.custom_reserved_words:",
+     "        elif False and primitive_name in self.grammar.custom_reserved_words:",
+     '_Parser.parse_primitive : ensures[unknown primitive or reserved word is never accepted]'),
+    ('c06-sequence-skips-first-transformer', 'C06', 'exactly_lib/impls/types/string_transformer/impl/sequence.py',
+     "        for transformer in self._non_identity_transformer_functions:\n            model = transformer(model)",
+     "        for transformer in self._non_identity_transformer_functions[1:]:\n            model = transformer(model)",
+     'SequenceStringTransformer.transform : ensures[left to right'),
+    ('c06-operand-after-not-on-current-line', 'C06', 'exactly_lib/impls/types/expression/parser.py',
+     "                expression = self.parse_mandatory_primitive(must_be_on_current_line=False)",
+     "                expression = self.parse_mandatory_primitive(must_be_on_current_line=True)",
+     'bounded[integer-matcher _Parser.parse] unclassified: '),
+    # ---- C01 / C03
+    ('c01-continue-after-hard-error', 'C01', 'exactly_lib/execution/impl/phase_step_execution.py',
+     "            if failure_info is not None:\n                return Failure(",
+     "            if failure_info is not None and failure_info.status is not ExecutionFailureStatus.HARD_ERROR:\n"
+     "                return Failure(",
+     'execute_phase_prim : loop#0 invariant[preserved]'),
+    ('c01-hard-error-exception-as-fail', 'C01', 'exactly_lib/execution/impl/single_instruction_executor.py',
+     "            ExecutionFailureStatus.HARD_ERROR,\n            element",
+     "            ExecutionFailureStatus.FAIL,\n            element",
+     'execute_element : ensures[failure has the kind of the failing apply]'),
+    ('c01-no-cleanup-after-setup-failure', 'C01', 'exactly_lib/execution/partial_execution/impl/executor.py',
+     "            except PhaseStepFailureException as ex:\n                self._cleanup_main(previous_phase)\n"
+     "                raise ex",
+     "            except PhaseStepFailureException as ex:\n                raise ex",
+     '_PartialExecutor.execute : ensures[cleanup: exactly once iff the sandbox exists'),
+    ('c01-before-assert-failure-tells-assert', 'C01', 'exactly_lib/execution/partial_execution/impl/executor.py',
+     "self._cleanup_main(PreviousPhase.BEFORE_ASSERT)", "self._cleanup_main(PreviousPhase.ASSERT)",
+     '_PartialExecutor.execute : ensures[cleanup: exactly once iff the sandbox exists'),
+    ('c01-assert-failure-masked-by-pass', 'C01', 'exactly_lib/execution/partial_execution/impl/executor.py',
+     "        if failure_from_previous_step is not None:\n"
+     "            return self._final_failure_result_from(failure_from_previous_step)",
+     "        if failure_from_previous_step is not None and False:\n"
+     "            return self._final_failure_result_from(failure_from_previous_step)",
+     '_PartialExecutor.execute : ensures[outcome: success iff no step failed'),
+    ('c01-cleanup-main-wrong-previous-phase', 'C01', 'exactly_lib/execution/impl/phase_step_executors.py',
+     "                             self._os_services,\n                             self._previous_phase))",
+     "                             self._os_services,\n                             PreviousPhase.ASSERT))",
+     "CleanupMainExecutor.apply : ensures[calls the step's method of the instruction"),
+    ('c01-skip-ignored', 'C01', 'exactly_lib/execution/full_execution/execution.py',
+     "    if configuration_builder.test_case_status is TestCaseStatus.SKIP:", "    if False:",
+     'full_execution.execution:execute : ensures[conf failure / SKIP end the execution'),
+    ('c03-cleanup-validated-after-sandbox', 'C03', 'exactly_lib/execution/partial_execution/impl/executor.py',
+     "            self._cleanup__validate_pre_sds()\n        except PhaseStepFailureException as ex:\n"
+     "            return self._final_failure_result_from(ex.failure)\n\n        self._setup_post_sds_environment()\n",
+     "        except PhaseStepFailureException as ex:\n"
+     "            return self._final_failure_result_from(ex.failure)\n\n        self._setup_post_sds_environment()\n"
+     "        try:\n            self._cleanup__validate_pre_sds()\n        except PhaseStepFailureException as ex:\n"
+     "            return self._final_failure_result_from(ex.failure)\n",
+     '_PartialExecutor.execute : ensures[invalid case (C03)'),
+    ('c03-execute-on-access-error', 'C03', 'exactly_lib/processing/processing_utils.py',
+     "            except AccessorError as ex:\n                return processing.Result(processing.Status.ACCESS_ERROR,",
+     "            except AccessorError as ex:\n                self._executor.apply(test_case.file_path, None)\n"
+     "                return processing.Result(processing.Status.ACCESS_ERROR,",
+     'ProcessorFromAccessorAndExecutor.apply : ensures[the test case is executed iff'),
+    ('c03-pre-sds-conjunction-runs-post-sds-part', 'C03',
+     'exactly_lib/type_val_deps/dep_variants/sdv/sdv_validation.py',
+     "        for validator in self.validators:\n            result = validator.validate_pre_sds_if_applicable(environment)",
+     "        for validator in self.validators:\n            result = validator.validate_post_sds_if_applicable(environment)",
+     'AndSdvValidator.validate_pre_sds_if_applicable : monitor['),
+    ('c02-act-output-files-not-forwarded', 'C02', 'exactly_lib/processing/standalone/processor.py',
+     "            result_reporter.execute_atc_and_skip_assertions()\n        )",
+     "            None\n        )",
+     'Processor._executor : ensures[keep-flag-and-act-output-files-reach-the-executor]'),
+    ('c02-invalid-usage-exit-code', 'C02', 'exactly_lib/cli/definitions/exit_codes.py',
+     "EXIT_INVALID_USAGE = 64", "EXIT_INVALID_USAGE = 65",
+     'EXIT_INVALID_USAGE == 64'),
+    ('c02-status-instruction-case', 'C02', 'exactly_lib/impls/instructions/configuration/test_case_status.py',
+     "        argument = status_element_arg.upper()", "        argument = status_element_arg",
+     'status instruction: documented spellings'),
+    # ---- C06: each half of fix 35f7247 reverted
+    ('c06-revert-fix-35f7247-first-operand-mode', 'C06', 'exactly_lib/impls/types/expression/parser.py',
+     "        expression = self.parse_w_maybe_infix_ops(new_line_ignore,\n",
+     "        expression = self.parse_w_maybe_infix_ops(new_line_ignore is None,\n",
+     'bounded[integer-matcher _Parser.parse] C06-2: '),
+    ('c06-revert-fix-35f7247-operand-mode-inside-parentheses', 'C06', 'exactly_lib/impls/types/expression/parser.py',
+     "            next_operand = self.parse_w_maybe_infix_ops(\n"
+     "                _IS_INSIDE_PARENTHESES if is_inside_parens else _NEXT_EXPR_ON_ANY_LINE,\n"
+     "                infix_ops_levels)",
+     "            next_operand = self.parse_w_maybe_infix_ops(_NEXT_EXPR_ON_ANY_LINE,\n"
+     "                                                        infix_ops_levels)",
+     'bounded[integer-matcher _Parser.parse] C06-1: '),
 ]
